@@ -317,6 +317,12 @@ theorem decodeRecord_post (ty : Nat) (d : Slice)
 def FlowStatsInstrLoopOK : Prop :=
   ∀ (d : Slice) (limit n0 : Nat) (is0 : List V), d.WF → NS (FlowStats.decodeInstrs d limit n0 is0)
 
+theorem post_ite {α} {c : Prop} [Decidable c] {x y : R α} {Q : α → Prop}
+    (h1 : c → Post x Q) (h2 : ¬c → Post y Q) : Post (if c then x else y) Q := by
+  by_cases h : c
+  · rw [if_pos h]; exact h1 h
+  · rw [if_neg h]; exact h2 h
+
 /-- MultipartReply (decoded into `new(MultipartReply)` as Parse does): the record loop refuses a record of length 0 and
     runs below the 16-bit header length -/
 theorem MultipartReply_unmarshalWith_ns (hFS : FlowStatsInstrLoopOK) (data : Slice) (hwf : data.WF) :
@@ -338,6 +344,7 @@ theorem MultipartReply_unmarshalWith_ns (hFS : FlowStatsInstrLoopOK) (data : Sli
       apply post_bind (decodeRecord_post _ _ (fun l n i => hFS d l n i hd)); intro p _ hp
       obtain ⟨r, e'⟩ := p
       simp only [] at hp ⊢
+      apply post_ite (fun _ => post_err); intro _
       apply post_bind_ns hp; intro q _
       obtain ⟨l, r'⟩ := q
       simp only []
@@ -359,12 +366,6 @@ theorem recoverR_ns (r : R V) (h : NS r) : NS (recoverR r) := by
   split
   · exact post_err
   · exact h
-
-theorem post_ite {α} {c : Prop} [Decidable c] {x y : R α} {Q : α → Prop}
-    (h1 : c → Post x Q) (h2 : ¬c → Post y Q) : Post (if c then x else y) Q := by
-  by_cases h : c
-  · rw [if_pos h]; exact h1 h
-  · rw [if_neg h]; exact h2 h
 
 /-- one level of Parse never spins when the nested Parse does not -/
 theorem parseStep_ns (hEth : ∀ recv (d : Slice), d.WF → NS (PEthernet.unmarshal recv d)) (hFS : FlowStatsInstrLoopOK)
